@@ -180,6 +180,16 @@ def run(idx, rep, tier):
     from . import valmode
     valmode.check(idx, rep, "R2", ["fail"])
     _r2_do_i_fail(idx, rep)
+    # an error is *handled* (and so can fail the run) only when the matcher hands the line's collected errors over: every exit of
+    # Matcher.matches passes clear_errors (matcher table, clear-errors aspect)
+    from . import matcher_model as MM
+    fm, rows = MM.run_model(idx, max_components=2, with_memo=False)
+    badc = None
+    for row in rows:
+        for aspect, ok, detail in MM.judge(row):
+            if aspect == "clear-errors" and not ok:
+                badc = badc or detail
+    rep.check(badc is None, "R2", f"{fm.file}::Matcher.matches table clear-errors", badc or f"{len(rows)} rows", K.where(fm, fm.node))
 
     # ------------------------------------------------------------------ R3
     _r3(idx, rep)
